@@ -41,51 +41,54 @@ theorem parseInt_toInt {w : Nat} (hw : 0 < w) (v : BitVec w) : parseInt w (forma
 
 /-- text → binary for scalars and strings: the text the writer prints for `t` is parsed to `encPayload t` -/
 theorem marshal_scalar (fo : FloatOracle) (fm : FmtOracle) (t : NBT) (w : Bytes) (hw : scalarText fm t = some w)
-    (hf : FloatHyp fo fm t) (hwf : t.WF) : marshal fo w = .ok (encPayload t) := by
+    (hf : FloatHyp fo fm t) (hwf : t.WF) (hlen : ∀ s, t = .string s → s.length < 2 ^ 15) :
+    marshal fo w = .ok (encPayload t) := by
   cases t with
   | byte v =>
     simp only [scalarText, Option.some.injEq] at hw; subst hw
     have hp := parseLiteral_int_suffix fo v.toInt 66 (Or.inl rfl)
     simp only [if_true, parseInt_toInt (by decide : 0 < 8) v, Option.map_some] at hp
-    rw [marshal_tok fo _ (isTok_int _ _ (Or.inr (Or.inl rfl))) _ _ hp]
+    rw [marshal_tok fo _ (isTok_int _ _ (Or.inr (Or.inl rfl))) _ _ hp rfl]
     simp [litPayload, encPayload]
   | short v =>
     simp only [scalarText, Option.some.injEq] at hw; subst hw
     have hp := parseLiteral_int_suffix fo v.toInt 83 (Or.inr (Or.inl rfl))
     simp only [show ¬ ((83 : Byte) = 66) by decide, if_false, if_true, parseInt_toInt (by decide : 0 < 16) v,
       Option.map_some] at hp
-    rw [marshal_tok fo _ (isTok_int _ _ (Or.inr (Or.inr (Or.inl rfl)))) _ _ hp]
+    rw [marshal_tok fo _ (isTok_int _ _ (Or.inr (Or.inr (Or.inl rfl)))) _ _ hp rfl]
     simp [litPayload, encPayload, be16]
   | int v =>
     simp only [scalarText, Option.some.injEq] at hw; subst hw
     have hp := parseLiteral_int_plain fo v.toInt
     simp only [parseInt_toInt (by decide : 0 < 32) v, Option.map_some] at hp
-    rw [marshal_tok fo _ (by simpa using isTok_int v.toInt [] (Or.inl rfl)) _ _ hp]
+    rw [marshal_tok fo _ (by simpa using isTok_int v.toInt [] (Or.inl rfl)) _ _ hp rfl]
     simp [litPayload, encPayload, be32]
   | long v =>
     simp only [scalarText, Option.some.injEq] at hw; subst hw
     have hp := parseLiteral_int_suffix fo v.toInt 76 (Or.inr (Or.inr (Or.inl rfl)))
     simp only [show ¬ ((76 : Byte) = 66) by decide, show ¬ ((76 : Byte) = 83) by decide, if_false, if_true,
       parseInt_toInt (by decide : 0 < 64) v, Option.map_some] at hp
-    rw [marshal_tok fo _ (isTok_int _ _ (Or.inr (Or.inr (Or.inr (Or.inl rfl))))) _ _ hp]
+    rw [marshal_tok fo _ (isTok_int _ _ (Or.inr (Or.inr (Or.inr (Or.inl rfl))))) _ _ hp rfl]
     simp [litPayload, encPayload, be64]
   | float b =>
     simp only [scalarText, Option.some.injEq] at hw; subst hw
     obtain ⟨hft, hpf⟩ := hf
     have hp := parseLiteral_float fo _ hft 70 (Or.inl rfl)
     simp only [if_true, hpf, Option.map_some] at hp
-    rw [marshal_tok fo _ (isTok_float _ hft 70 (Or.inl rfl)) _ _ hp]
+    rw [marshal_tok fo _ (isTok_float _ hft 70 (Or.inl rfl)) _ _ hp rfl]
     simp [litPayload, encPayload, be32]
   | double b =>
     simp only [scalarText, Option.some.injEq] at hw; subst hw
     obtain ⟨hft, hpf⟩ := hf
     have hp := parseLiteral_float fo _ hft 68 (Or.inr rfl)
     simp only [show ¬ ((68 : Byte) = 70) by decide, if_false, hpf, Option.map_some] at hp
-    rw [marshal_tok fo _ (isTok_float _ hft 68 (Or.inr rfl)) _ _ hp]
+    rw [marshal_tok fo _ (isTok_float _ hft 68 (Or.inr rfl)) _ _ hp rfl]
     simp [litPayload, encPayload, be64]
   | string s =>
     simp only [scalarText, Option.some.injEq] at hw; subst hw
-    rw [marshal_tok fo _ (isTok_str s) _ _ (parseLiteral_writeEscapeStr fo s)]
+    have hl := hlen s rfl
+    rw [marshal_tok fo _ (isTok_str s) _ _ (parseLiteral_writeEscapeStr fo s)
+      (litOk_str s hl)]
     simp [litPayload, encPayload, encString]
   | _ => simp [scalarText] at hw
 
